@@ -22,10 +22,10 @@ T = {
          "(iter) the MAF sequential inverse and the BNAF/bisection inverter have the required shape and take -forward log-det at the computed x; "
          "(bin) the spline bin index stays inside the padded knot tables and clamps cut no feasible bin. Does NOT decide round-trip error size or "
          "convergence to tolerance (floating-point quantities).", "3 C01"),
- "C02": ("rank abstract domain + exact rational-fragment term identity between sibling methods",
+ "C02": ("rank abstract domain + exact rational-fragment term identity between sibling methods + symbolic differentiation",
          "Decides: (scalar) the log-det of every X_and_log_det is rank-0 in a rank domain; (neg) ld(inverse_and_log_det)(y) == -ld(transform_and_log_det)(x := inverse(y)) "
          "as a term identity for leaves (exact in the rational fragment), by mirror for delegating classes, at the computed x for MAF/BNAF, with the two named exceptions "
-         "(LeakyTanh y-space predicate, planar skeleton with the constrained u); (mask) value and log-det select their branch with the same predicate. Does NOT decide equality with the autodiff Jacobian.", "3 C02"),
+         "(LeakyTanh y-space predicate, planar skeleton with the constrained u); (mask) value and log-det select their branch with the same predicate; (deriv) for the elementwise leaves, the spline, the triangular affine map, planar and the pure reorderings, the closed-form log-det equals sum log|d transform/dx| of the map actually computed, by symbolic differentiation / exact rational identity. Does NOT decide the numerical equality with the autodiff Jacobian for data-dependent compositions (follows by induction from the clauses above) nor MAF/BNAF/coupling Jacobian structure (C09).", "3 C02 and 8.3"),
  "C03": ("signed-provenance / reference-term comparison of the three cores + loop-summary rule for merge_transforms",
          "Decides: the three cores of AbstractTransformed equal the change-of-variables wiring (inverse log-det added, forward subtracted, base density at the inverse image, condition to both, key once, one bijection/base pair); "
          "the default joint path; merge_transforms collects one bijection per visited level outermost-first, reverses once, merges on the innermost base; every factory returns Transformed(base, Invert(Scan(L)) if invert else Scan(L)); "
